@@ -77,14 +77,14 @@ type Op2 struct {
 	E  int    `json:"e,omitempty"` // ret with ok = false: index of the error text (errTexts) the INSERT fails with
 }
 type Ev2 struct {
-	T      string  `json:"t"` // dial swap send done answer sreq sres
+	T      string  `json:"t"` // dial swap send done answer sreq sres conf
 	S      int     `json:"s"`
 	H      int     `json:"h,omitempty"`
 	I      int     `json:"i,omitempty"` // sreq / sres: position of the sub-request among those of push h
 	K      int     `json:"k,omitempty"` // sreq / sres: attempt number (calls of Request for this sub-request before this one)
 	N      int     `json:"n,omitempty"` // sreq / sres: rows of the request (a request without rows cannot be told apart from another one)
 	Ok     bool    `json:"ok"`
-	Rids   []int64 `json:"rids,omitempty"`   // send: the rows of the block, in block order
+	Rids   []int64 `json:"rids,omitempty"`   // send: the rows of the block, in block order; conf: the series row whose key ConfirmSeries entered into the cache (-1: a key no push of the script explains)
 	Counts []int   `json:"counts,omitempty"` // send: rows per column when they differ
 	Status int     `json:"status,omitempty"`
 }
@@ -309,6 +309,7 @@ type bench2 struct {
 	status  map[int]int
 	owner   map[int64][2]int // row id -> (push, position of the sub-request) that submitted it
 	tries   map[[2]int]int   // Request calls seen per sub-request
+	keyRid  map[uint64]int64 // announcement-cache key -> the series row it stands for (learnt by running ConfirmSeries on the dry-run output)
 }
 
 // spySvc stands between doPush and the real service: it sees every Request call (which sub-request, which attempt)
@@ -343,6 +344,38 @@ func (s *spySvc) Request(req helpers.SizeGetter, mode int) *promise.Promise[uint
 	}()
 	return p
 }
+
+// spyCache stands between doParse / the parsers and the real announcement cache: every CheckAndSet (only ConfirmSeries
+// calls it since /repo 00ba95e) is logged as a "conf" event with the series row the key stands for and the push that owns it
+type spyCache struct {
+	inner numbercache.ICache[uint64]
+	b     *bench2
+}
+
+func (c *spyCache) CheckAndSet(key uint64) bool {
+	c.b.mu.Lock()
+	id, known := c.b.keyRid[key]
+	h := -1
+	if !known {
+		id = -1
+	} else if o, ok := c.b.owner[id]; ok {
+		h = o[0]
+	}
+	c.b.events = append(c.b.events, Ev{T: "conf", L2: &Ev2{T: "conf", H: h, Rids: []int64{id}}})
+	c.b.mu.Unlock()
+	return c.inner.CheckAndSet(key)
+}
+func (c *spyCache) Has(key uint64) bool { return c.inner.Has(key) }
+func (c *spyCache) DB(db string) numbercache.ICache[uint64] {
+	return &spyCache{inner: c.inner.DB(db), b: c.b}
+}
+
+// keyRecorder is handed to unmarshal.ConfirmSeries on the dry-run output to learn the cache key of every series row
+type keyRecorder struct{ keys []uint64 }
+
+func (k *keyRecorder) CheckAndSet(key uint64) bool         { k.keys = append(k.keys, key); return false }
+func (k *keyRecorder) Has(key uint64) bool                 { return false }
+func (k *keyRecorder) DB(string) numbercache.ICache[uint64] { return k }
 
 // learn records which sub-request of which push owns the rows of the items of push h
 func (b *bench2) learn(h int, items []Item) {
@@ -409,7 +442,7 @@ func (b *bench2) take2raw() []Ev2 {
 			x := *e.L2
 			x.S = e.S
 			out = append(out, x)
-		case "sreq", "sres":
+		case "sreq", "sres", "conf":
 			out = append(out, *e.L2)
 		case "answer":
 			out = append(out, Ev2{T: "answer", H: e.P, Ok: e.Ok, Status: int(e.S)})
@@ -428,7 +461,7 @@ func (b *bench2) take2() []Ev2 {
 	out := make([]Ev2, 0, len(evs))
 	for _, e := range evs {
 		switch e.T {
-		case "send", "sreq", "sres":
+		case "send", "sreq", "sres", "conf":
 			out = append(out, *e.L2)
 		case "answer":
 			out = append(out, Ev2{T: "answer", H: e.P, Ok: e.Ok, Status: int(e.S)})
@@ -442,7 +475,7 @@ func (b *bench2) take2() []Ev2 {
 			return 0
 		case "answer":
 			return 1
-		case "sreq", "sres":
+		case "sreq", "sres", "conf":
 			return 3
 		}
 		return 2
@@ -537,8 +570,14 @@ func (b *bench2) dryParse(hr *HReq) []Item {
 				return
 			}
 			sr := SubReq{G: g, Kind: kind, Sz: r.GetSize()}
+			var ckeys []uint64
+			if ts, ok := r.(*model.TimeSeriesData); ok {
+				rec := &keyRecorder{}
+				unmarshal.ConfirmSeries(ts, rec)
+				ckeys = rec.keys
+			}
 			b.mu.Lock()
-			for _, k := range keys {
+			for j, k := range keys {
 				full := fmt.Sprint(g) + "|" + k
 				id, known := b.rid[full]
 				if !known {
@@ -547,6 +586,9 @@ func (b *bench2) dryParse(hr *HReq) []Item {
 					b.rid[full] = id
 				}
 				sr.Rids = append(sr.Rids, id)
+				if j < len(ckeys) {
+					b.keyRid[ckeys[j]] = id
+				}
 			}
 			b.mu.Unlock()
 			chunk = append(chunk, sr)
@@ -565,7 +607,7 @@ func (b *bench2) dryParse(hr *HReq) []Item {
 func start2(c *Case2) *runner2 {
 	n := len(l2kinds)
 	b := newBench(make([]int, n), c.Dials)
-	b2 := &bench2{bench: b, rid: map[string]int64{}, nextRid: 1, status: map[int]int{}, owner: map[int64][2]int{}, tries: map[[2]int]int{}}
+	b2 := &bench2{bench: b, rid: map[string]int64{}, nextRid: 1, status: map[int]int{}, owner: map[int64][2]int{}, tries: map[[2]int]int{}, keyRid: map[uint64]int64{}}
 	b.l2 = b2
 	r := &runner2{c: c, b: b2}
 	maps := make([]map[string]service.IInsertServiceV2, n)
@@ -580,7 +622,7 @@ func start2(c *Case2) *runner2 {
 	}
 	controllerv1.Registry = registry.NewStaticServiceRegistry(maps[gSeries], maps[gSamples],
 		map[string]service.IInsertServiceV2{}, maps[gSpans], maps[gTags], maps[gProfile])
-	controllerv1.FPCache = fpCache2
+	controllerv1.FPCache = &spyCache{inner: fpCache2, b: b2}
 	config.Cloki.Setting.SYSTEM_SETTINGS.RetryAttempts = c.Attempts
 	config.Cloki.Setting.SYSTEM_SETTINGS.RetryTimeoutS = 0
 	cfg := controllerv1.NewMiddlewareConfig(controllerv1.WithExtraMiddlewareDefault...)
